@@ -102,6 +102,14 @@ impl<'de, R: Read<'de>> Deserializer<R> {
             .map(|code| code.and_then(|code| code.try_into()))
     }
 
+    /// Check that `n` more bytes of input exist without consuming them
+    fn ensure_available(&mut self, n: usize) -> Result<(), Error> {
+        match self.reader.peek_bytes(n)? {
+            Some(_) => Ok(()),
+            None => Err(Error::unexpected_eof("Expecting array body")),
+        }
+    }
+
     /// Consume and discard `n` bytes without allocating
     fn skip_bytes(&mut self, n: usize) -> Result<(), Error> {
         for _ in 0..n {
@@ -924,6 +932,9 @@ where
                     return Err(Error::InvalidValue);
                 }
 
+                // `count <= len` only bounds the work if the declared body is really there
+                self.ensure_available(len.saturating_sub(OFFSET_ARRAY8 - 1))?;
+
                 // If count is zero, jump to visitor
                 match count {
                     0 => {
@@ -959,6 +970,9 @@ where
                 if count > MAX_ARRAY_COUNT || count > len {
                     return Err(Error::InvalidValue);
                 }
+
+                // `count <= len` only bounds the work if the declared body is really there
+                self.ensure_available(len.saturating_sub(OFFSET_ARRAY32 - 1))?;
 
                 // If count is zero, jump to visitor
                 match count {
